@@ -1,6 +1,6 @@
 //! C17 — token groups -> sparse COO matrix, padding mask, padded id / label matrices
 use crate::ctx::{Ctx, Outcome};
-use crate::props::tok::{build, rand_common, tok_text, Kind};
+use crate::props::tok::{build, emit_tok, rand_common, tok_text, Kind};
 use crate::wire::*;
 use rand::Rng;
 use text_utils::data::loading::Tensorize;
@@ -30,6 +30,11 @@ pub fn enc_group(v: &mut Vec<u64>, g: &TokenGroup) {
 }
 
 pub fn exec(op: &str, a: &[u64]) -> Result<Outcome, String> {
+    if op == "bytetok" {
+        // the groups themselves: exact correspondence with the model of ByteTokenizer::process_input and the
+        // oracle "lengths sum to the number of ids, one group per character / special / prefix / suffix token"
+        return crate::props::tok::exec(op, a);
+    }
     let mut r = Rd::new(a);
     match op {
         "coo" => {
@@ -152,10 +157,19 @@ pub fn run_c17(ctx: &mut Ctx) {
         for _ in 0..k {
             let c = rand_common(ctx, false);
             let kind = Kind::Byte { cp_groups: ctx.rng.random_bool(0.5), pad_to: None };
-            let s = tok_text(ctx, 8, &c.tokens);
+            let mut s = tok_text(ctx, 8, &c.tokens);
+            if ctx.rng.random_range(0..6) == 0 {
+                // multi-byte / multi-code-point characters inside otherwise plain ASCII text
+                let at = ctx.rng.random_range(0..=s.len());
+                if s.is_char_boundary(at) {
+                    s.insert_str(at, ["\r\n", "a\u{301}", "\u{1F1E9}\u{1F1EA}", "x\r\ny"][ctx.rng.random_range(0..4)]);
+                }
+            }
             let multi = clusters(&s, true).iter().any(|c| c.len() > 1);
             let Some(b) = build(&kind, &c, multi) else { continue };
-            let Ok(t) = b.tok.tokenize(&s, ctx.rng.random_bool(0.3)) else { continue };
+            let ign = ctx.rng.random_bool(0.3);
+            emit_tok(ctx, "bytetok", &kind, &c, &s, ign, multi);
+            let Ok(t) = b.tok.tokenize(&s, ign) else { continue };
             let TokenizationInfo::TokenGroups(m) = &t.info else { continue };
             let (groups, _) = m.values().next().unwrap();
             v.push(mean as u64);
